@@ -42,6 +42,11 @@ CLAIMED = {
             "control-flow behaviour for the size); on every path the concrete output frame is checked for index, "
             "dtype, ordering, disjointness, range and the configured length limits",
             "4.C04"),
+    "C06": ("the three adapters over table / uninterpreted costs return exactly the defining cost differences (term "
+            "identities decided by z3); CUSUM^2 and L2Saving equal the L2-cost definitions on symbolic data (NRA, sqrt "
+            "as a defined algebraic number); non-negativity, optimal<=fixed and the split inequality for L2 (nlsat) "
+            "and for the univariate Gaussian cost with explicitly instantiated log lemmas (with a vacuity twin)",
+            "4.C06"),
 }
 PENDING = {}
 TITLES = {}
